@@ -76,7 +76,12 @@ func gocvGen(rng *rand.Rand, t reflect.Type, depth int) reflect.Value {
 		}
 	case reflect.Struct:
 		if t == reflect.TypeOf(time.Time{}) {
-			v.Set(reflect.ValueOf(time.Unix(int64(rng.Intn(4))*43200+int64(rng.Intn(3)), 0).UTC()))
+			// instants around day boundaries, in UTC or in a fixed-offset zone up to +-14 h
+			tm := time.Unix(int64(rng.Intn(6))*43200+int64(rng.Intn(5))-2+int64(rng.Intn(2))*1700000000, int64(rng.Intn(2))*999999999).UTC()
+			if rng.Intn(2) == 0 {
+				tm = tm.In(time.FixedZone("gocv", (rng.Intn(29)-14)*3600))
+			}
+			v.Set(reflect.ValueOf(tm))
 			break
 		}
 		for i := 0; i < t.NumField(); i++ {
